@@ -31,7 +31,8 @@ func c19ManyKeys(r *Run) {
 	if r.Tier == "thorough" {
 		n = 1200000
 	}
-	key := func(i int) string { return fmt.Sprintf("bucket/object-%07d", i) }
+	// pseudo-random names: however the map digests a key, the digests of these behave like random numbers
+	key := func(i int) string { return fmt.Sprintf("bucket/%016x", splitmix(uint64(i))) }
 	ctx := context.Background()
 	for i := 0; i < n; i++ {
 		ok := false
